@@ -125,6 +125,7 @@ type modSet struct {
 	regions []modNote
 	all     bool
 	allPlain bool
+	unknown bool // some havoc-all came from the body itself (a call without a frame, an unsupported construct)
 	keys    map[string]bool
 }
 
@@ -225,7 +226,7 @@ func collectVars(v Value, set map[*Term]bool) {
 	})
 }
 
-func (e *Engine) applyHavoc(st *State, ms *modSet, fresh map[*Term]bool) {
+func (e *Engine) applyHavoc(fr *frame, st *State, ms *modSet, fresh map[*Term]bool) {
 	c := e.C
 	if ms.all {
 		old := st.heap
@@ -235,6 +236,12 @@ func (e *Engine) applyHavoc(st *State, ms *modSet, fresh map[*Term]bool) {
 		}
 		if !ms.allPlain && e.cur != nil {
 			e.restoreKept(st, old)
+		}
+		if !ms.unknown && e.cur != nil && os.Getenv("DGV_FRAMEHAVOC") != "" {
+			// EXPERIMENTAL, off by default (no claimed contract needs it):
+			// the mod-set discovery gave up (the body writes through pointers that change with the iterations), but
+			// every write of the body is a checked store or a call under contract: it stays inside the root frame
+			e.restoreOutsideFrame(fr, st, old)
 		}
 		return
 	}
@@ -261,6 +268,107 @@ func (e *Engine) applyHavoc(st *State, ms *modSet, fresh map[*Term]bool) {
 			st.assume(a)
 		}
 		c.Store_(&st.heap, Ptr{n.R, n.O}, 0, n.T, v)
+	}
+}
+
+// restoreOutsideFrame: after a havoc of the whole heap at a loop head, the regions known at that point that
+// existed before the call and are not touched by the root contract's modifies set get their contents back.
+// Sound because every store and every call under contract inside the function is obliged to stay inside
+// that set or inside memory allocated during the call (frame and frame:call obligations) — the function
+// verifies only if all of them are discharged. Not applied when the body contains a call without a frame.
+func (e *Engine) restoreOutsideFrame(fr *frame, st *State, old Heap) {
+	c := e.C
+	rc := e.cur
+	if rc == nil || rc.spec == nil {
+		return
+	}
+	for _, m := range rc.modRanges {
+		if m.R == nil {
+			return // the root may write anything
+		}
+	}
+	// candidate regions: everything the function holds a handle to at this point (values computed so far,
+	// recorded extents)
+	seen := map[*Term]bool{}
+	var cands []*Term
+	add := func(r *Term) {
+		if r == nil || seen[r] || isFreshRegion(r) {
+			return
+		}
+		seen[r] = true
+		cands = append(cands, r)
+	}
+	var walk func(v Value)
+	walk = func(v Value) {
+		switch x := v.(type) {
+		case Ptr:
+			add(x.R)
+		case Slice:
+			add(x.P.R)
+		case Str:
+			add(x.P.R)
+		case Iface:
+			add(x.P.R)
+		case FuncV:
+			for _, b := range x.Bind {
+				walk(b)
+			}
+		case Struct:
+			for _, f := range x.F {
+				walk(f)
+			}
+		case Arr:
+			for _, f := range x.E {
+				walk(f)
+			}
+		case Tuple:
+			for _, f := range x.E {
+				walk(f)
+			}
+		}
+	}
+	if fr != nil {
+		var keys []ssa.Value
+		for k := range fr.regs {
+			keys = append(keys, k)
+		}
+		sort.Slice(keys, func(i, j int) bool { return keys[i].Pos() < keys[j].Pos() || (keys[i].Pos() == keys[j].Pos() && keys[i].Name() < keys[j].Name()) })
+		for _, k := range keys {
+			walk(fr.regs[k])
+		}
+	}
+	for _, x := range st.ext {
+		add(x.R)
+	}
+	if len(cands) > 24 {
+		cands = cands[:24]
+	}
+	// only regions that are literally known (path facts: preconditions, invariants) to be old and different
+	// from every region of the root frame are restored — no conditional stores, the heap terms stay small
+	known := func(t *Term) bool {
+		if t.IsTrue() {
+			return true
+		}
+		v, ok := st.decided(c, t)
+		return ok && v
+	}
+	for _, r := range cands {
+		if !known(c.Ult(r, c.Const(RgnW, FreshBase))) {
+			continue
+		}
+		ok := true
+		for _, m := range rc.modRanges {
+			if !known(c.Ne(r, m.R)) {
+				ok = false
+				break
+			}
+		}
+		if !ok {
+			continue
+		}
+		for kd := 0; kd < NKinds; kd++ {
+			st.heap.K[kd] = c.Store(st.heap.K[kd], r, c.Select(old.K[kd], r))
+		}
 	}
 }
 
@@ -291,7 +399,7 @@ func (e *Engine) loopEnter(fr *frame, li *loopInfo, pred *ssa.BasicBlock, st *St
 			collectVars(v, fresh)
 			frD.regs[ph] = v
 		}
-		e.applyHavoc(stD, ms, fresh)
+		e.applyHavoc(frD, stD, ms, fresh)
 		frD.cuts[li.head] = &loopCut{li: li}
 		savedPaths := e.cur.paths
 		func() {
@@ -311,6 +419,9 @@ func (e *Engine) loopEnter(fr *frame, li *loopInfo, pred *ssa.BasicBlock, st *St
 		if d.all && !ms.all {
 			ms.all = true
 			changed = true
+		}
+		if d.all {
+			ms.unknown = true
 		}
 		if d.allPlain && !ms.allPlain {
 			ms.allPlain = true
@@ -346,7 +457,7 @@ func (e *Engine) loopEnter(fr *frame, li *loopInfo, pred *ssa.BasicBlock, st *St
 	}
 	e.setRgn(baseRgn + 6000)
 	if os.Getenv("DGV_LOOPDBG") != "" && fr.dry == nil {
-		fmt.Fprintf(os.Stderr, "LOOP %s loop%d: all=%v allPlain=%v cells=%d regions=%d\n", fr.fn.Name(), li.ordinal, ms.all, ms.allPlain, len(ms.cells), len(ms.regions))
+		fmt.Fprintf(os.Stderr, "LOOP %s loop%d: all=%v allPlain=%v unknown=%v cells=%d regions=%d ext=%d\n", fr.fn.Name(), li.ordinal, ms.all, ms.allPlain, ms.unknown, len(ms.cells), len(ms.regions), len(st.ext))
 		for i, n := range ms.cells {
 			if i < 12 {
 				fmt.Fprintf(os.Stderr, "   cell R=%s O=%s T=%v\n", c.Show(n.R), c.Show(n.O), n.T)
@@ -381,8 +492,13 @@ func (e *Engine) loopEnter(fr *frame, li *loopInfo, pred *ssa.BasicBlock, st *St
 		frI.regs[ph] = inVals[i]
 	}
 	for _, inv := range cut.invs {
-		t := e.evalInv(frI, li, st, inv)
-		e.oblige(st, fr, "inv-init", fmt.Sprintf("loop%d:%s", li.ordinal, inv.name), t, li.pos)
+		t, facts := e.evalInv(frI, li, st, inv, false)
+		s2 := st
+		if len(facts) > 0 {
+			s2 = st.clone()
+			s2.facts = append(s2.facts, facts...)
+		}
+		e.oblige(s2, fr, "inv-init", fmt.Sprintf("loop%d:%s", li.ordinal, inv.name), t, li.pos)
 	}
 	// 3. cut
 	fresh := map[*Term]bool{}
@@ -394,9 +510,11 @@ func (e *Engine) loopEnter(fr *frame, li *loopInfo, pred *ssa.BasicBlock, st *St
 		}
 		fr.regs[ph] = v
 	}
-	e.applyHavoc(st, ms, fresh)
+	e.applyHavoc(fr, st, ms, fresh)
 	for _, inv := range cut.invs {
-		st.assume(e.evalInv(fr, li, st, inv))
+		t, facts := e.evalInv(fr, li, st, inv, true)
+		st.assume(t)
+		st.facts = append(st.facts, facts...)
 	}
 	if ls := e.loopSpec(fr, li); ls != nil {
 		for _, cl := range ls.Unfolds {
@@ -439,8 +557,13 @@ func (e *Engine) loopBackEdge(fr *frame, li *loopInfo, pred *ssa.BasicBlock, st 
 		frB.regs[ph] = vals[i]
 	}
 	for _, inv := range cut.invs {
-		t := e.evalInv(frB, li, st, inv)
-		e.obligeNoAssume(st, fr, "inv-step", fmt.Sprintf("loop%d:%s", li.ordinal, inv.name), t)
+		t, facts := e.evalInv(frB, li, st, inv, false)
+		s2 := st
+		if len(facts) > 0 {
+			s2 = st.clone()
+			s2.facts = append(s2.facts, facts...)
+		}
+		e.obligeNoAssume(s2, fr, "inv-step", fmt.Sprintf("loop%d:%s", li.ordinal, inv.name), t)
 	}
 	if ls := e.loopSpec(fr, li); ls != nil {
 		for i, cl := range ls.Steps {
@@ -702,16 +825,17 @@ func (e *Engine) loopEnv(fr *frame, li *loopInfo, st *State) *specEnv {
 	return env
 }
 
-func (e *Engine) evalInv(fr *frame, li *loopInfo, st *State, inv loopInv) *Term {
+// evalInv evaluates a loop invariant in the given frame/state: as a goal (a universal quantifier is
+// skolemised, quantified hypotheses become facts) or as an assumption (universals become facts).
+func (e *Engine) evalInv(fr *frame, li *loopInfo, st *State, inv loopInv, assume bool) (*Term, []*QFact) {
 	if inv.gen != nil {
-		return inv.gen(fr, st)
+		return inv.gen(fr, st), nil
 	}
 	env := e.loopEnv(fr, li, st)
-	t := env.boolTerm(env.eval(inv.cl.Expr))
-	if e.hasMarker(t) {
-		specErr("quantified loop invariants are not supported yet")
+	if assume {
+		return e.clauseAssume(env, inv.cl)
 	}
-	return t
+	return e.clauseGoal(env, inv.cl)
 }
 
 // loopVariant: user `decreases`, else inferred from the loop guard `a < b` / `a <= b` with b
